@@ -295,6 +295,20 @@ func main() {
 		} else {
 			status["Facts.comparedFields"] = "ERROR"
 		}
+		if sc, err := stopCallSites(root); err == nil {
+			b.WriteString("/-- `p.command.Stop(sig, parentOnly)` call sites of src/app/process.go: (function, signal argument, parent-only argument) -/\ndef stopCalls : List (String × String × String) := [")
+			for i, c := range sc {
+				if i > 0 {
+					b.WriteString(",")
+				}
+				fmt.Fprintf(&b, "\n  (%q, %q, %q)", c[0], c[1], c[2])
+			}
+			b.WriteString("]\n\n")
+			status["Facts.stopCalls"] = "ok"
+			facts["stopCalls"] = sc
+		} else {
+			status["Facts.stopCalls"] = "ERROR"
+		}
 		b.WriteString("end PC.Gen.Facts\n")
 		target := filepath.Join(gen, "Facts.lean")
 		if cur, err := os.ReadFile(target); err != nil || string(cur) != b.String() {
